@@ -39,15 +39,16 @@ THEOREMS = {
     'C08_capfirst': 'capfirst = self[:1].upper() + self[1:] on the pairs; Protected untouched',
     'C08_capitalize': 'capitalize = self[:1].upper() + self[1:].lower() on the pairs; Protected untouched',
     'C08_add_period': 'add_period appends a period inside the outermost markup iff the text is non-empty and does not end in a terminator',
-    'C08_split': 'split at a one-character separator is the list split at the unprotected occurrences; protected text and symbols are never split; join . split keeps the characters',
+    'C08_split': 'split at a one-character separator is the list split at the unprotected occurrences; split() is the non-empty pieces of the list split at unprotected white space (str.split()), however the white space is spread over parts; protected text and symbols are never split; join . split keeps the characters',
     'C08_prefix_suffix_contains': 'startswith / endswith / in are sound for the string of pairs (a reported match is spelled inside one markup)',
+    'C08_partwise_neg': 'limit (documented behaviour): a multi-character separator / prefix / suffix / substring that straddles a markup boundary is not matched -- concrete witnesses; this is why split is proved for one-character separators and white space and startswith/endswith/in as soundness',
     'C08_isalpha': 'isalpha iff non-empty and every pair an alphabetic character',
     'C08_render': 'rendering with the tracing backend returns the string of pairs, for the object built from any tree',
     'C08_history': 'every finite sequence of operations applied on top of one another equals the same sequence of list operations on the string of pairs (induction over the history; normal form is an invariant)',
 }
 LEVEL_TEXT = ('Machine-checked proofs (Lean 4) over an executable model that follows pybtex/richtext.py method by method: the constructor and '
               'every operation (+, append, join, slicing for ALL integer bounds, indexing, upper/lower, capfirst, capitalize, add_period, '
-              'split at a one-character separator, isalpha, rendering) act on the denoted string of (atom, markup-stack) pairs exactly as '
+              'split() at white space and split at a one-character separator, isalpha, rendering) act on the denoted string of (atom, markup-stack) pairs exactly as '
               'the corresponding list operation; normal forms are unique, so == coincides with "same class and same string of pairs" and '
               'grouping/nesting never matters; all of it lifted to arbitrary finite operation histories by induction.  The model is tied to '
               'the code by a correspondence check that compares, for every tree of an exhaustive small scope x every slice/index/operation '
@@ -55,9 +56,9 @@ LEVEL_TEXT = ('Machine-checked proofs (Lean 4) over an executable model that fol
 LEVEL_NOTE = ('Trusted: Lean kernel; axioms propext/Classical.choice/Quot.sound only; the model (Model/RichText.lean) corresponds to the code only as '
               'far as the differential check explores; the reference semantics Spec/RichText.lean (sem, Flat.*, Abs.*) must be read and agreed '
               'with. Proved for the model WITH the proposed fixes C08-1..5 applied (slice with stop<start, Symbol.__eq__, HRef.external, '
-              'IndexError, empty piece from split) -- on the unpatched tree the check reports these as violations. NOT proved: split at white '
-              'space (sep=None) and at multi-character separators for multipart texts (checked against the list semantics by the oracle only; '
-              'multi-character separators are matched part-wise by design); completeness of startswith/endswith/in (only soundness is proved; '
+              'IndexError, empty piece from split) -- on the unpatched tree the check reports these as violations. NOT proved: split at '
+              'multi-character separators and split(None, keep_empty_parts=True) for multipart texts (modelled and compared with the code, no '
+              'list-level law: multi-character separators are matched part-wise by design); completeness of startswith/endswith/in (only soundness is proved; '
               'exactness on normal forms is checked by the oracle); "operands are never modified" is checked on the implementation only '
               '(the model is pure). Characters are ASCII / caseless symbols; the deprecated tag alias emph, regex separators, abbreviate(), '
               'slices with a step and the deprecated pre-0.19 methods are outside the model.')
@@ -810,7 +811,10 @@ def random_op(rng, depth=2):
 
 
 def random_case(rng):
-    t = random_tree(rng, rng.randint(1, 4), True)
+    if rng.random() < 0.12:     # histories that start from a String or a Symbol
+        t = {'y': rng.choice(RICH_SYMS)} if rng.random() < 0.3 else rng.choice(RICH_STRS)
+    else:
+        t = random_tree(rng, rng.randint(1, 4), True)
     ops = [random_op(rng) for _ in range(rng.randint(1, 6))]
     if rng.random() < 0.3:
         # finish with a comparison against a regrouping of what the history started from
